@@ -1264,6 +1264,47 @@ impl GlobalInferenceCtx<'_> {
                             }
                         }
                         Expr::Local(local) => self.tys[self.loc].local_tys[*local],
+                        // these just pass the (possibly widened) type of what they wrap along
+                        Expr::Paren(Some(inner)) => self.tys[self.loc][*inner],
+                        Expr::Comptime(comptime) => self.tys[self.loc][self.bodies[*comptime].body],
+                        // an anonymous array literal one of whose items was widened: every item
+                        // gets the widened type, exactly as the operands of a binary expression do
+                        Expr::ArrayLiteral { ty: None, items } => {
+                            let Ty::AnonArray {
+                                size,
+                                sub_ty: previous_sub_ty,
+                            } = *previous_ty
+                            else {
+                                continue;
+                            };
+                            let items = items.clone();
+                            let mut item_tys = items.iter().map(|item| self.tys[self.loc][*item]);
+                            let Some(first) = item_tys.next() else { continue };
+                            let Some(sub_ty) =
+                                item_tys.try_fold(first, |max, item| max.max(&item).map(Intern::new))
+                            else {
+                                continue;
+                            };
+                            if sub_ty == previous_sub_ty {
+                                continue;
+                            }
+                            for item in items {
+                                self.replace_weak_tys(item, sub_ty);
+                            }
+                            Ty::ConcreteArray { size, sub_ty }.into()
+                        }
+                        Expr::Switch { arms, default, .. } => {
+                            let mut bodies = arms
+                                .iter()
+                                .map(|arm| arm.body)
+                                .chain(default.as_ref().map(|default| default.body))
+                                .map(|body| self.tys[self.loc][body]);
+                            let Some(first) = bodies.next() else { continue };
+                            match bodies.try_fold(first, |max, body| max.max(&body).map(Intern::new)) {
+                                Some(max) => max,
+                                None => continue,
+                            }
+                        }
                         Expr::Member {
                             previous,
                             name: field,
